@@ -1106,12 +1106,14 @@ where
         let (resolved_compiler_path, mtime) = match resolved_with_proxy {
             Some(x) => x, // TODO resolve the path right away
             _ => {
-                // fallback to using the path directly
-                metadata(&path2)
+                // fallback to using the path directly; a compiler that cannot
+                // be looked at is an unsupported compiler, not a reason to panic
+                let filetime = metadata(&path2)
                     .map(|attr| FileTime::from_last_modification_time(&attr))
-                    .ok()
-                    .map(move |filetime| (path2, filetime))
-                    .expect("Must contain sane data, otherwise mtime is not avail")
+                    .with_context(|| {
+                        format!("cannot read metadata of compiler {}", path2.display())
+                    })?;
+                (path2, filetime)
             }
         };
 
